@@ -39,6 +39,10 @@ def c07Line (fs : List (List Char)) : String :=
             match parseAcc a, n.toInt? with
             | some a, some n => let s' := step s (.write a n); go rest s' (showInts (flatten s'.root) :: acc)
             | _, _ => ("bad-op" :: acc).reverse
+          | ["a", a, n] =>
+            match parseAcc a, n.toInt? with
+            | some a, some n => let s' := step s (.add a n); go rest s' (showInts (flatten s'.root) :: acc)
+            | _, _ => ("bad-op" :: acc).reverse
           | ["c", d, c] =>
             match parseAcc d, parseAcc c with
             | some d, some c => let s' := step s (.copy d c); go rest s' (showInts (flatten s'.root) :: acc)
